@@ -71,10 +71,19 @@ func evalTree(sc *formula.SourceCode, data val.V) string {
 	return o
 }
 
+var freshRunners int
+
 // evalTreeKeep also hands back the value itself (to look at it again later).
 func evalTreeKeep(sc *formula.SourceCode, data val.V) (interface{}, string) {
 	m, _ := val.Build(data, &val.Env{}).(map[string]interface{})
 	r := formula.NewRunner()
+	// a runner fresh from NewRunner holds nothing: neither a data map nor anything in its auxiliary store (every
+	// evaluation of this monitor leaves a mark in the store of the runner it used)
+	if left := r.Get("verif-mark"); left != nil {
+		return nil, fmt.Sprintf("STATE a runner fresh from NewRunner already holds %v in its auxiliary store", left)
+	}
+	freshRunners++
+	r.Set("verif-mark", freshRunners)
 	r.SetThis(m)
 	var v interface{}
 	var err error
@@ -288,6 +297,9 @@ func orderList(seed int64, shard, n int) []EvalCase {
 			}
 		}
 	}
+	for _, z := range zoneSpellings {
+		out = append(out, EvalCase{Src: "hour(useTimezone(t0, '" + z + "'))", Data: datas[0]}, EvalCase{Src: "timeFormat(useTimezone(t0, '" + z + "'), 'MST -0700')", Data: datas[1]})
+	}
 	// rejected texts of many kinds (what a diagnostic says does not depend on which texts were rejected before)
 	for _, bad := range rejectedTexts {
 		out = append(out, EvalCase{Src: bad, Data: datas[0]})
@@ -311,6 +323,9 @@ func orderList(seed int64, shard, n int) []EvalCase {
 	}
 	return out
 }
+
+// zone names in every letter case (a lookup is case sensitive or it is not - it does not learn)
+var zoneSpellings = []string{"America/New_York", "america/new_york", "AMERICA/NEW_YORK", "Asia/Shanghai", "asia/shanghai", "Asia/shanghai", "UTC", "utc", "Utc", "Local", "local", "Europe/London", "europe/london", "EUROPE/LONDON", "Est", "EST", "est", "No/Such", "no/such"}
 
 var rejectedTexts = []string{"1 2", "(1", "[1", "f(1", "a ?", "a ? 1", "a.", "1 +", "'x", "f(1,", "[1,", "a b", ")", "]", "a ? b c", "$a = ", "f(..)", "1..2", "a!.", "typeof", "1e", "1_", "0x", "#", "a ? : b",
 	"(a", "((a)", "[a", "[[a]", "f(a", "f(g(a)", "a.b.", "a ? b : ", "-", "!", "a ,", ", a", "a ? b :: c", "f(a b)", "[a b]", "(a b)", "a\n.b", "f\n(1)", "'a\nb'", "\"x", "1 2 3", "f(1 2)", "[1 2]", "a ? 1 2 : 3", "{", "a..b",
